@@ -540,3 +540,6 @@ def run(ctx):
     # the stream reaches the caller's file where the directory says, wherever in the destination the dump starts (rules/families.py)
     from rules import families as _famd
     _famd.destination(ctx, "C20")
+    # the stream this property talks about is all-or-nothing: generate_dump succeeds only if its writer returned Ok (rules/c01.py rule_hard_streams)
+    from rules import c01 as _c01h
+    _c01h.rule_hard_streams(ctx, R="C20/hard-streams", only=('thread_list_stream::write',))
